@@ -75,7 +75,9 @@
 //	                                                  (table cfgErrs); a changed text is an unknown text: exit 2
 //	panic("…")                                        .panic
 //	log.<Level>(…), a loop that only logs             nothing — arguments checked to be free of side effects
-//	Load: everything before `c.v.ReadInConfig()`      not translated; checked to be `c := New()` plus viper set-up calls
+//	Load: everything before `c.v.ReadInConfig()`      not translated HERE (unit configload, gen20.go, translates it and hands over at
+//	                                                  the statement after the test of that error); checked to be `c := New()` plus
+//	                                                  viper set-up calls
 package main
 
 import (
